@@ -39,10 +39,11 @@ UNITS = {
         'title': 'special-float: the six spellings [+-](inf|nan) through the real parser: value class and sign bit (complete)',
     },
     'K11f': {
-        'engine': 'kani', 'crate': 'toml_write', 'harnesses': ['k11_f64_nan_and_zero'], 'complete': False,
-        'bound': 'four representative inputs: NaN and zero with either sign (the branch conditions depend on class and sign only)',
-        'timeout': 600,
-        'title': 'toml_write f64 writer special cases: nan / -nan / 0.0 / -0.0 carry the sign (bounded: representatives)',
+        'engine': 'kani', 'crate': 'toml_write', 'harnesses': ['k11_f64_nan_and_zero', 'k11_f32_nan_and_zero'],
+        'complete': False,
+        'bound': 'four representative inputs per float width: NaN and zero with either sign (the branch conditions depend on class and sign only)',
+        'timeout': 600, 'witness': ['witness-k11f'], 'replay': 'replay-k11f',
+        'title': 'toml_write f64 / f32 writer special cases: nan / -nan / 0.0 / -0.0 carry the sign and are float literals (bounded: representatives)',
     },
     'K6e': {
         'engine': 'kani', 'crate': 'toml_edit',
@@ -114,7 +115,7 @@ UNITS = {
         'title': 'hexescape::<N> closures: exactly N digits, hex value, Unicode scalar values only (unbounded, under assumed from_str_radix / char::from_u32 contracts)',
     },
     'V10': {
-        'engine': 'verus', 'complete': True,
+        'engine': 'verus', 'complete': True, 'witness': ['witness-k8'], 'replay': 'replay-k8',
         'title': 'Display for TomlError: never panics, prints line + 1 / column + 1 and the caret under the column, whole text pinned (unbounded, under the assumed contract of translate_position and the TomlError invariant)',
     },
     # ---------------------------------------------------------------- Kani, complete per fixed input width
